@@ -446,6 +446,36 @@ fn real_defaults() -> Vec<String> {
     check!("storage,block", AppBuilder::new().with_storage(TStorage { tag: 3, inner: MockStorage::new() }).with_block(b1.clone()).build(no_init), |_a| None, |a: &App<BankKeeper, MockApi, TStorage>| Some(a.storage().tag), 1001);
     check!("block,storage", AppBuilder::new().with_block(b1.clone()).with_storage(TStorage { tag: 3, inner: MockStorage::new() }).build(no_init), |_a| None, |a: &App<BankKeeper, MockApi, TStorage>| Some(a.storage().tag), 1001);
     check!("none", AppBuilder::new().build(no_init), |_a| None, |_a| None, 12345);
+    // a supplied bank serves everything the DEFAULT staking and distribution keepers do with coins: the transfer of a
+    // delegation, the payout of an unbonding at a block update, the mint of a withdrawn reward
+    {
+        use cosmwasm_std::{coin, Decimal, Validator};
+        let mut app = AppBuilder::new().with_bank(TBank::new("bank", 9)).build(|router, api, storage| {
+            router.staking.setup(storage, cw_multi_test::StakingInfo { bonded_denom: "tok".into(), unbonding_time: 10, apr: Decimal::percent(100) }).unwrap();
+            let block = cosmwasm_std::testing::mock_env().block;
+            router.staking.add_validator(api, storage, &block, Validator::new("val".into(), Decimal::zero(), Decimal::one(), Decimal::one())).unwrap();
+        });
+        let d = MockApi::default().addr_make("delegator");
+        let steps: Vec<(&str, Box<dyn Fn(&mut App<TBank>) -> bool>)> = vec![
+            ("delegate", Box::new(|a: &mut App<TBank>| a.execute(MockApi::default().addr_make("delegator"), StakingMsg::Delegate { validator: "val".into(), amount: coin(100, "tok") }.into()).is_ok())),
+            ("undelegate + block update", Box::new(|a: &mut App<TBank>| {
+                let ok = a.execute(MockApi::default().addr_make("delegator"), StakingMsg::Undelegate { validator: "val".into(), amount: coin(40, "tok") }.into()).is_ok();
+                SEEN.with(|s| s.borrow_mut().clear());
+                a.update_block(|b| b.time = b.time.plus_seconds(40_000_000));
+                ok
+            })),
+            ("withdraw rewards", Box::new(|a: &mut App<TBank>| a.execute(MockApi::default().addr_make("delegator"), DistributionMsg::WithdrawDelegatorReward { validator: "val".into() }.into()).is_ok())),
+        ];
+        let _ = d;
+        for (what, f) in steps {
+            SEEN.with(|s| s.borrow_mut().clear());
+            let ok = f(&mut app);
+            let got = SEEN.with(|s| s.borrow().clone());
+            if !ok || !got.iter().any(|(slot, tag)| slot == "bank" && *tag == 9) {
+                found.push(format!("supplied bank + default staking/distribution: {what}: ok = {ok}, modules that were called: {:?} (the supplied bank, tag 9, must be among them)", got));
+            }
+        }
+    }
     check!("block_h0", AppBuilder::new().with_block(block_of_step("block_h0", 1)).build(no_init), |_a| None, |_a| None, 0);
     check!("block,block_h0", AppBuilder::new().with_block(b1.clone()).with_block(block_of_step("block_h0", 2)).build(no_init), |_a| None, |_a| None, 0);
     found
